@@ -33,8 +33,8 @@ type Rec struct {
 func (r *Rec) add(kind string, wire string) {
 	r.Effects = append(r.Effects, Effect{kind, wire})
 }
-func nw(f float64) string { return "n" + FHex(f) }
-func sw(s string) string  { return "s" + SHex(s) }
+func nw(f float64) string     { return "n" + FHex(f) }
+func sw(s string) string      { return "s" + SHex(s) }
 func (r *Rec) Print(s string) { r.Out.WriteString(s); r.add("print", "(print "+sw(s)+")") }
 func (r *Rec) Read() string {
 	r.add("read", "(read)")
@@ -174,12 +174,12 @@ func ClassOf(err error) string {
 
 // RunOpts configures RunSrc.
 type RunOpts struct {
-	Input    []string
-	StopAt   int
-	MaxYield int
-	FailFast bool
+	Input     []string
+	StopAt    int
+	MaxYield  int
+	FailFast  bool
 	NoSummary bool
-	Events   []evaluator.Event
+	Events    []evaluator.Event
 }
 
 // ParseSrc parses with the real parser, recovering from Go panics.
